@@ -5,6 +5,7 @@ CONSTANTS
   AseArgs <- MCAseArgs
   NliArgs <- MCNliArgs
   Splits <- MCSplits
+  MaxParts = 3
   MaxDepth = 4
 INIT MCInit
 NEXT MCNext
@@ -13,6 +14,8 @@ INVARIANT Conservation
 INVARIANT SharesInUnitInterval
 INVARIANT GsnrIdentity
 INVARIANT MuxDemuxLossless
+INVARIANT SourceIsWhole
+PROPERTY MCSourceUntouched
 PROPERTY MCDemuxMuxKeepLedger
 PROPERTY MCKeepsOsnr
 PROPERTY MCKeepsNli
